@@ -1,8 +1,24 @@
 #!/bin/sh
-# Build the framework from files on disk only (offline): Lean models + theorems + driver, then every
-# harness binary against /repo's current working tree.
-set -e
+# Build the framework from files on disk only (offline): Lean models + theorems + per-property
+# drivers, then every harness binary against /repo's current working tree.
+# A property whose model or harness does not build must not prevent the others from being set up
+# (its own check will report the failure), so every step continues on error.
 cd "$(dirname "$0")"
 export CARGO_NET_OFFLINE=true
-(cd lean && lake build)
-(cd harness && cargo build --release --workspace)
+rc=0
+cd lean
+for p in HeartwoodModel/Props/C*.lean; do
+  id=$(basename "$p" .lean)
+  low=$(echo "$id" | tr 'C' 'c')
+  lake build "HeartwoodModel.Props.$id" "driver-$low" >/tmp/setup-lean-$id.log 2>&1 \
+    || { echo "setup: lean targets of $id failed (see its check)"; tail -5 /tmp/setup-lean-$id.log; rc=1; }
+done
+cd ../harness
+cargo build --release --workspace --keep-going 2>&1 | tail -3 || rc=1
+# per-crate fallback so that one broken crate does not leave the others unbuilt
+for d in c[0-9][0-9]; do
+  [ -x "../.cache/harness-target/release/$d" ] || cargo build --release -p "$d" >/dev/null 2>&1 \
+    || echo "setup: harness $d does not build (see its check)"
+done
+echo "setup finished (rc=$rc; failures above are reported again by the individual checks)"
+exit 0
